@@ -65,7 +65,7 @@ Definition ok_lframe2 (cx : context) (ps : pstate) (f : lframe2) (fol : str) : b
       && match get_env_spec cx name with
          | Some sp =>
              match sp_args sp with
-             | APStd l => ok_args2 cx ps args l fol && slots_ok (nabs args) (length (begin_str bws name))
+             | APStd l => ok_args2 cx ps args l fol
              | APLegacy _ => false
              end
          | None => false
@@ -132,10 +132,15 @@ Qed.
 Section Path2.
   Variable s : str.
   Variable cx : context.
+  (** the units of fuel per written character, as in [Proofs/RoundTrip2.v] *)
+  Variable U : nat.
+  Hypothesis U8 : 8 <= U.
+  Hypothesis UM : max_args cx + 4 <= U.
   Notation R := (run s false cx).
+  Ltac ulia := ulia_gen U U8.
 
   Lemma lift2 n n' t r : R n t = r -> r <> OutOfFuel -> n <= n' -> R n' t = r.
-  Proof. intros H NR L. eapply run_mono; eassumption. Qed.
+  Proof using Type. clear UM U8 U. intros H NR L. eapply run_mono; eassumption. Qed.
 
   (** the call parser of an environment: the arguments are read, the body fails *)
   Lemma erule_tcall_env2 n ps name p0 pe sp l al pa e p :
@@ -143,7 +148,7 @@ Section Path2.
     R (S n) (TArgs ps l [] pe) = Ok (OArgs (Some ([], al))) pa ->
     R n (TGeneral (DocGrammar2.env_body_state ps sp) (env_opts name) pa) = PErr e p ->
     R (S (S n)) (TCall ps (mk TkBeginEnv name p0 pe [] []) sp pe) = PErr e p.
-  Proof.
+  Proof using Type. clear UM U8 U.
     intros A HA H. cbn [run] in HA |- *. rewrite A. cbn [run] in HA. rewrite HA.
     cbn [parse_content_args parse_content mk tk targ].
     change (if sp_body_math sp then ps_enter_math ps None else ps) with (DocGrammar2.env_body_state ps sp).
@@ -155,7 +160,7 @@ Section Path2.
     StdE cx ps -> opts_ok ps o -> ok_lframe2 cx ps f rest = true ->
     skipn pos s = lf_text2 f ++ rest ->
     R k (TCollect (lf_state2 cx ps f) (lf_opts2 (lf_state2 cx ps f) f) cs_empty (pos + length (lf_text2 f))) = PErr e p ->
-    exists e', R (k + 8 * length (lf_text2 f)) (TCollect ps o st pos) = PErr e' p
+    exists e', R (k + U * length (lf_text2 f)) (TCollect ps o st pos) = PErr e' p
                /\ pe_pos e' = pe_pos e /\ pe_what e' = pe_what e.
   Proof.
     intros [SD EE] OK OKF SK H. pose proof (std_view_of cx ps SD) as V.
@@ -164,15 +169,15 @@ Section Path2.
     assert (SKb : skipn pb s = ws ++ lf_open2 f ++ rest).
     { unfold lf_text2 in SK. fold before ws in SK. rewrite <- !app_assoc in SK. apply skipn_shift in SK. exact SK. }
     assert (LT : length (lf_text2 f) = length (unparse_items2 before) + length ws + length (lf_open2 f)).
-    { unfold lf_text2. fold before ws. rewrite !app_length. lia. }
+    { unfold lf_text2. fold before ws. rewrite !app_length. ulia. }
     assert (SIM : forall m e', ok_items2 cx ps [] before (ws ++ lf_open2 f ++ rest) = true ->
-              m + 8 * length (unparse_items2 before) <= k + 8 * length (lf_text2 f) ->
+              m + U * length (unparse_items2 before) <= k + U * length (lf_text2 f) ->
               R m (TCollect ps o (fst (absorb2 cx ps pos st before)) pb) = PErr e' p ->
-              R (k + 8 * length (lf_text2 f)) (TCollect ps o st pos) = PErr e' p).
+              R (k + U * length (lf_text2 f)) (TCollect ps o st pos) = PErr e' p).
     { intros m e' OKB LE HM.
       assert (SK0 : skipn pos s = unparse_items2 before ++ (ws ++ lf_open2 f ++ rest)).
       { unfold lf_text2 in SK. fold before ws in SK. rewrite <- !app_assoc in SK. exact SK. }
-      pose proof (items_sim2_std s cx before ps o st pos _ m (PErr e' p) SD OK ltac:(discriminate) OKB SK0 HM) as S1.
+      pose proof (items_sim2_std s cx U before ps o st pos _ m (PErr e' p) U8 UM SD OK ltac:(discriminate) OKB SK0 HM) as S1.
       apply (lift2 _ _ _ _ S1); [discriminate | exact LE]. }
     destruct f as [b w|b w mk|b w bws name args]; cbn [lf_before2 lf_ws2 lf_open2 lf_state2 lf_opts2 ok_lframe2] in *.
     - (* group *)
@@ -184,13 +189,13 @@ Section Path2.
       { rewrite (impl_peek_dispatch ps s _ [] 123%N _ eq_refl SK1 space_123). cbn [length].
         rewrite Nat.add_0_r. apply (dispatch_open cx ps V). }
       replace (pos + length (lf_text2 (LGrp2 b w))) with (S (pb + length ws)) in H
-        by (rewrite LT; cbn [lf_open2 length]; unfold pb; lia).
+        by (rewrite LT; cbn [lf_open2 length]; unfold pb; ulia).
       pose proof (erule_general s cx _ _ _ _ _ _ H) as E1.
       pose proof (erule_tgroup s cx _ ps _ _ _ (sv_gdelims _ _ V) T1 E1) as E2.
       pose proof (erule_group s cx _ ps o (fst (absorb2 cx ps pos st before)) pb ws _ _ (opts_ok_2 _ _ OK) T E2) as E3.
       eexists. split; [refine (SIM _ _ _ _ E3)|split; reflexivity].
       + exact OKB.
-      + rewrite LT. cbn [lf_open2 length]. lia.
+      + rewrite LT. cbn [lf_open2 length]. ulia.
     - (* math *)
       apply andb_true_iff in OKF. destruct OKF as [OKF DL].
       apply andb_true_iff in OKF. destruct OKF as [OKF M]. apply negb_true_iff in M.
@@ -219,13 +224,13 @@ Section Path2.
         - rewrite (impl_peek_dispatch ps s _ [] 92%N _ eq_refl SK1 space_92). cbn [length]. rewrite Nat.add_0_r. exact D.
         - rewrite (impl_peek_dispatch ps s _ [] 36%N _ eq_refl SK1 space_36). cbn [length]. rewrite Nat.add_0_r. exact D. }
       replace (pos + length (lf_text2 (LMath2 b w mk))) with (pb + length ws + length (m_open mk)) in H
-        by (rewrite LT; cbn [lf_open2]; unfold pb; lia).
+        by (rewrite LT; cbn [lf_open2]; unfold pb; ulia).
       pose proof (erule_general s cx _ _ _ _ _ _ H) as E1.
       pose proof (erule_tmath s cx _ ps mk _ _ _ _ T1 E E1) as E2.
       pose proof (erule_math s cx _ ps o (fst (absorb2 cx ps pos st before)) pb ws mk _ _ (opts_ok_2 _ _ OK) (proj1 SD) M T E2) as E3.
       eexists. split; [refine (SIM _ _ _ _ E3)|split; reflexivity].
       + exact OKB.
-      + rewrite LT. cbn [lf_open2]. destruct mk; cbn [m_open length]; lia.
+      + rewrite LT. cbn [lf_open2]. destruct mk; cbn [m_open length]; ulia.
     - (* environment *)
       apply andb_true_iff in OKF. destruct OKF as [OKF OKE].
       apply andb_true_iff in OKF. destruct OKF as [OKF EN].
@@ -234,8 +239,10 @@ Section Path2.
       apply andb_true_iff in OKF. destruct OKF as [OKB W].
       destruct (get_env_spec cx name) as [sp|] eqn:GS; [|discriminate].
       destruct (sp_args sp) as [l|lk] eqn:SA; [|discriminate].
-      apply andb_true_iff in OKE. destruct OKE as [OKA SL].
-      unfold slots_ok in SL. apply Nat.leb_le in SL.
+      pose proof OKE as OKA.
+      assert (SL : nabs args + 4 <= U * length (begin_str bws name)).
+      { apply (slots_paid cx U U8 UM sp l ps args _ _ (ParserTermDefs.env_spec_le cx name sp GS) SA OKA).
+        rewrite len_begin_str. lia. }
       set (bps := DocGrammar2.env_body_state ps sp) in *.
       set (p0 := pb + length ws).
       set (pa := p0 + length (begin_str bws name)).
@@ -251,23 +258,23 @@ Section Path2.
       { rewrite (impl_peek_dispatch ps s pb ws 92%N _ W SK'' space_92). fold p0.
         rewrite (RoundTrip2Tok.dispatch_env cx ps V s p0 ws true bws name _ (skipn_shift _ _ _ _ SK'') EN WB NM).
         unfold pa. rewrite len_begin_str. cbn [env_tok RoundTrip2Tok.env_kw kw_begin length]. f_equal.
-        unfold Tokenizer.mk. f_equal. lia. }
-      pose proof (args_run2 s cx (lsize2 args) (items_sim2 s cx (lsize2 args)) args l ps [] pa _ SD (le_n _) OKA SKa) as A.
+        unfold Tokenizer.mk. f_equal. ulia. }
+      pose proof (args_run2 s cx U U8 UM (lsize2 args) (items_sim2 s cx U U8 UM (lsize2 args)) args l ps [] pa _ SD (le_n _) OKA SKa) as A.
       cbn [app] in A.
       set (pbody := pa + length (unparse_items2 args)) in *.
       replace (pos + length (lf_text2 (LEnv2 b w bws name args))) with pbody in H
-        by (rewrite LT; cbn [lf_open2]; rewrite app_length; unfold pbody, pa, p0, pb; lia).
+        by (rewrite LT; cbn [lf_open2]; rewrite app_length; unfold pbody, pa, p0, pb; ulia).
       pose proof (erule_general s cx _ _ _ _ _ _ H) as E1.
-      set (N0 := Nat.max (S k) (1 + nabs args + 8 * length (unparse_items2 args))).
-      apply (lift2 _ (S N0)) in A; [|discriminate|unfold N0; lia].
-      apply (lift2 _ N0) in E1; [|discriminate|unfold N0; lia].
+      set (N0 := Nat.max (S k) (1 + nabs args + U * length (unparse_items2 args))).
+      apply (lift2 _ (S N0)) in A; [|discriminate|unfold N0; ulia].
+      apply (lift2 _ N0) in E1; [|discriminate|unfold N0; ulia].
       pose proof (erule_tcall_env2 N0 ps name p0 pa sp l _ _ _ _ SA A E1) as E2.
       pose proof (erule_begin s cx _ ps o (fst (absorb2 cx ps pos st before)) pb ws name pa sp _ _
                     (opts_ok_2 _ _ OK) GS T E2) as E3.
       eexists. split; [refine (SIM _ _ _ _ E3)|split; reflexivity].
       + rewrite <- app_assoc. exact OKB.
       + rewrite LT. cbn [lf_open2]. rewrite app_length. pose proof (len_begin_str bws name) as LB.
-        unfold N0. lia.
+        unfold N0. ulia.
   Qed.
 
   (** ** a whole path *)
@@ -276,7 +283,7 @@ Section Path2.
     skipn pos s = lp_text2 path ++ rest ->
     R k (TCollect (lp_state2 cx ps path) (lp_opts2 cx ps o path) (lp_st2 st path) (pos + length (lp_text2 path)))
     = PErr e p ->
-    exists e', R (k + 8 * length (lp_text2 path)) (TCollect ps o st pos) = PErr e' p
+    exists e', R (k + U * length (lp_text2 path)) (TCollect ps o st pos) = PErr e' p
                /\ pe_pos e' = pe_pos e /\ pe_what e' = pe_what e.
   Proof.
     induction path as [|f path IH]; intros ps o st pos rest k e p SD OK OKP SK H.
@@ -292,13 +299,13 @@ Section Path2.
       assert (HI : R k (TCollect (lp_state2 cx ips path) (lp_opts2 cx ips (lf_opts2 ips f) path) (lp_st2 cs_empty path)
                           (pos + length (lf_text2 f) + length (lp_text2 path))) = PErr e p).
       { replace (pos + length (lf_text2 f) + length (lp_text2 path)) with (pos + (length (lf_text2 f) + length (lp_text2 path)))
-          by lia. destruct path; exact H. }
+          by ulia. destruct path; exact H. }
       destruct (IH ips (lf_opts2 ips f) cs_empty _ rest k e p SDi (opts_ok_lf2 cx ps f _ OKF) OKP SK1 HI)
         as (e1 & H1 & P1 & W1).
       destruct (frame_err2 f ps o st pos (lp_text2 path ++ rest) _ e1 p SD OK OKF SK H1) as (e2 & H2 & P2 & W2).
       exists e2. split; [|split; congruence].
-      replace (k + 8 * (length (lf_text2 f) + length (lp_text2 path)))
-        with (k + 8 * length (lp_text2 path) + 8 * length (lf_text2 f)) by lia. exact H2.
+      replace (k + U * (length (lf_text2 f) + length (lp_text2 path)))
+        with (k + U * length (lp_text2 path) + U * length (lf_text2 f)) by ulia. exact H2.
   Qed.
 End Path2.
 
@@ -332,7 +339,6 @@ Definition ok_brkhole (cx : context) (ps : pstate) (before : list item2) (ws nam
             | _ => false
             end
          && mac_follow_ok2 name post (unparse_items2 args1 ++ aws ++ oc :: fol)
-         && slots_ok (nabs args1) (1 + length name)
      | None => false
      end.
 
@@ -355,14 +361,19 @@ Qed.
 Section Brk2.
   Variable s : str.
   Variable cx : context.
+  (** the units of fuel per written character, as in [Proofs/RoundTrip2.v] *)
+  Variable U : nat.
+  Hypothesis U8 : 8 <= U.
+  Hypothesis UM : max_args cx + 4 <= U.
   Notation R := (run s false cx).
+  Ltac ulia := ulia_gen U U8.
 
   (** ** a prefix of the arguments of a call *)
   Lemma args_pre2 : forall args1 l1 lrest ps acc pa fol n r,
     Std cx ps -> ok_args2 cx ps args1 l1 fol = true -> r <> OutOfFuel -> 2 <= n ->
     skipn pa s = unparse_items2 args1 ++ fol ->
     R n (TArgs ps lrest (acc ++ fst (arg_nodes2 cx ps pa args1 l1)) (pa + length (unparse_items2 args1))) = r ->
-    R (n + nabs args1 + 8 * length (unparse_items2 args1)) (TArgs ps (l1 ++ lrest) acc pa) = r.
+    R (n + nabs args1 + U * length (unparse_items2 args1)) (TArgs ps (l1 ++ lrest) acc pa) = r.
   Proof.
     induction args1 as [|a args IHa]; intros [|spc l] lrest ps acc pa fol n r SD OKA NR N2 SK H; try discriminate.
     - cbn [unparse_items2 flat_map length arg_nodes2 fst app nabs filter] in *. rewrite app_nil_r in H.
@@ -370,7 +381,7 @@ Section Brk2.
     - cbn [ok_args2] in OKA. apply andb_true_iff in OKA. destruct OKA as [OKa OKR].
       assert (SK' : skipn pa s = unparse_item2 a ++ unparse_items2 args ++ fol).
       { unfold unparse_items2 in *. cbn [flat_map] in SK. rewrite <- app_assoc in SK. exact SK. }
-      destruct (arg_run2 s cx (isize2 a) (items_sim2 s cx (isize2 a)) ps spc a pa _ SD (Nat.le_succ_diag_r _) OKa SK')
+      destruct (arg_run2 s cx U U8 UM (isize2 a) (items_sim2 s cx U U8 UM (isize2 a)) ps spc a pa _ SD (Nat.le_succ_diag_r _) OKa SK')
         as [A NE].
       set (nd := arg_node2 cx ps spc pa a) in *.
       set (pe := pa + ilen2 a) in *.
@@ -379,19 +390,19 @@ Section Brk2.
       { unfold unparse_items2, ilen2. cbn [flat_map]. rewrite app_length. reflexivity. }
       cbn [arg_nodes2 fst snd] in H. fold nd pe in H. rewrite L in H.
       replace (pa + (ilen2 a + length (unparse_items2 args))) with (pe + length (unparse_items2 args)) in H
-        by (unfold pe; lia).
+        by (unfold pe; ulia).
       change (acc ++ nd :: fst (arg_nodes2 cx ps pe args l)) with (acc ++ [nd] ++ fst (arg_nodes2 cx ps pe args l)) in H.
       rewrite app_assoc in H.
       pose proof (IHa l lrest ps (acc ++ [nd]) pe fol n r SD OKR NR N2 SKr H) as B.
-      set (N0 := Nat.max (arg_fuel a) (n + nabs args + 8 * length (unparse_items2 args))).
-      assert (LE : S N0 <= n + nabs (a :: args) + 8 * length (unparse_items2 (a :: args))).
-      { unfold N0, arg_fuel. rewrite nabs_cons, L. destruct (is_abs a) eqn:AB; [lia|].
-        pose proof (ok_arg_len cx ps spc a _ OKa AB). lia. }
+      set (N0 := Nat.max (arg_fuel U a) (n + nabs args + U * length (unparse_items2 args))).
+      assert (LE : S N0 <= n + nabs (a :: args) + U * length (unparse_items2 (a :: args))).
+      { unfold N0, arg_fuel. rewrite nabs_cons, L. destruct (is_abs a) eqn:AB; [ulia|].
+        pose proof (ok_arg_len cx ps spc a _ OKa AB). ulia. }
       apply (lift2 s cx (S N0)); [|exact NR|exact LE].
       cbn [app].
       apply (rule_targs_cons' s cx N0 ps spc (l ++ lrest) acc pa nd pe _ NE).
-      + apply (lift_pc s cx _ _ _ _ _ A). unfold N0. lia.
-      + apply (lift2 s cx _ N0) in B; [exact B|exact NR|unfold N0; lia].
+      + apply (lift_pc s cx _ _ _ _ _ A). unfold N0. ulia.
+      + apply (lift2 s cx _ N0) in B; [exact B|exact NR|unfold N0; ulia].
   Qed.
 
   (** ** error rules of the delimited-group parser and of the argument list *)
@@ -401,7 +412,7 @@ Section Brk2.
     (aps || is_nil aws) = true ->
     R n (TGeneral (brk_state ps oc cc) (brk_opts ps oc cc) (S (p0 + length aws))) = PErr e p ->
     R (S n) (TGroup ps (GDPair [oc] [cc]) opt aps p0) = PErr e p.
-  Proof.
+  Proof using Type. clear UM U8 U.
     intros T A H. cbn [run]. fold (brk_state ps oc cc). rewrite next_tok_strict, T.
     cbn [mk tk targ tpre tpos tend tokkind_eqb str_eqb]. rewrite N.eqb_refl. cbn [andb].
     unfold is_nil in A. rewrite A. cbn [negb andb]. fold (brk_opts ps oc cc). rewrite H. reflexivity.
@@ -411,7 +422,7 @@ Section Brk2.
     (forall e0, impl_peek ps s pos <> TokErr e0) ->
     R n (TStdArg (apply_adelta ps (a_delta a)) (a_kind a) pos) = PErr e p ->
     R (S n) (TArgs ps (a :: rest) acc pos) = PErr e p.
-  Proof.
+  Proof using Type. clear UM U8 U.
     intros T A. cbn [run]. rewrite peek_tok_strict.
     destruct (impl_peek ps s pos) as [t|fin|e0] eqn:E; [| |exfalso; apply (T e0); reflexivity];
       rewrite A; reflexivity.
@@ -425,7 +436,7 @@ Section Brk2.
     let aps := bh_state cx ps name (length args1) in
     R k (TCollect (brk_state aps oc cc) (brk_opts aps oc cc) cs_empty
                   (pos + length (bh_text before ws name post args1 aws oc))) = PErr e p ->
-    exists e', R (k + 8 * length (bh_text before ws name post args1 aws oc)) (TCollect ps o st pos) = PErr e' p
+    exists e', R (k + U * length (bh_text before ws name post args1 aws oc)) (TCollect ps o st pos) = PErr e' p
                /\ pe_pos e' = pe_pos e /\ pe_what e' = pe_what e.
   Proof.
     intros [SD EE] OK OKH SK aps H. pose proof (std_view_of cx ps SD) as V.
@@ -438,10 +449,12 @@ Section Brk2.
     destruct (get_macro_spec cx name) as [sp|] eqn:GS; [|discriminate].
     destruct (sp_args sp) as [l|lk] eqn:SA; [|discriminate].
     destruct (nth_error l (length args1)) as [spc|] eqn:NTH; [|discriminate].
-    apply andb_true_iff in OKM. destruct OKM as [OKM SL].
     apply andb_true_iff in OKM. destruct OKM as [OKM FO].
     apply andb_true_iff in OKM. destruct OKM as [OKA KD].
-    unfold slots_ok in SL. apply Nat.leb_le in SL.
+    assert (SL : nabs args1 + 4 <= U * (1 + length name)).
+    { pose proof (nabs_le args1) as NL. pose proof (ParserTermDefs.macro_spec_le cx name sp GS) as M.
+      unfold nargs in M. rewrite SA in M.
+      assert (length args1 < length l) by (apply nth_error_Some; rewrite NTH; discriminate). lia. }
     destruct (a_kind spc) as [|o' c' opt sp'| |] eqn:AK; try discriminate.
     destruct o' as [|oc' [|? ?]]; try discriminate. destruct c' as [|cc' [|? ?]]; try discriminate.
     apply andb_true_iff in KD. destruct KD as [KD WA].
@@ -460,7 +473,7 @@ Section Brk2.
     assert (LT : length (bh_text before ws name post args1 aws oc)
                  = length (unparse_items2 before) + length ws + 1 + length name + length post
                    + length (unparse_items2 args1) + length aws + 1).
-    { unfold bh_text. rewrite !app_length. cbn [length]. rewrite !app_length. cbn [length]. lia. }
+    { unfold bh_text. rewrite !app_length. cbn [length]. rewrite !app_length. cbn [length]. ulia. }
     assert (SK0 : skipn pos s = unparse_items2 before
                                 ++ (ws ++ 92%N :: name ++ post ++ unparse_items2 args1 ++ aws ++ oc :: rest)).
     { rewrite SK. unfold bh_text. repeat (rewrite <- app_assoc; cbn [app]). reflexivity. }
@@ -480,7 +493,7 @@ Section Brk2.
     assert (NE : forall e0, impl_peek ps s ph <> TokErr e0)
       by (apply (peek_no_err s cx ps ph aws oc rest SD WA SPO O92 SKh)).
     replace (pos + length (bh_text before ws name post args1 aws oc)) with (S q0) in H
-      by (rewrite LT; unfold q0, ph, pe, p0, pb; lia).
+      by (rewrite LT; unfold q0, ph, pe, p0, pb; ulia).
     pose proof (erule_general s cx _ _ _ _ _ _ H) as E1.
     pose proof (erule_tgroup_pair _ aps oc cc opt sp' ph aws _ _ T1 AP E1) as E2.
     assert (E3 : R (S (S (S k))) (TStdArg aps (AKGroup [oc] [cc] opt sp') ph) = PErr (rewrap (S q0) e) p).
@@ -493,14 +506,14 @@ Section Brk2.
     pose proof (erule_targs_cons' _ ps spc (skipn (S (length args1)) l)
                   ([] ++ fst (arg_nodes2 cx ps pe args1 (firstn (length args1) l))) ph _ _ NE E3) as E4.
     pose proof (args_pre2 args1 (firstn (length args1) l) (spc :: skipn (S (length args1)) l) ps [] pe _
-                  (S (S (S (S k)))) (PErr (rewrap (S q0) e) p) SD OKA ltac:(discriminate) ltac:(lia) SKa E4) as E5.
+                  (S (S (S (S k)))) (PErr (rewrap (S q0) e) p) SD OKA ltac:(discriminate) ltac:(ulia) SKa E4) as E5.
     rewrite <- SPL in E5.
     pose proof (erule_tcall s cx _ ps (mk TkMacro name p0 pe [] post) sp l pe _ _ SA E5) as E6.
     pose proof (erule_macro s cx _ ps o (fst (absorb2 cx ps pos st before)) pb ws name pe post sp _ _
                   (opts_ok_2 _ _ OK) GS T E6) as E7.
-    pose proof (items_sim2_std s cx before ps o st pos _ _ (PErr (rewrap (S q0) e) p) SD OK ltac:(discriminate) OKB SK0 E7) as S1.
+    pose proof (items_sim2_std s cx U before ps o st pos _ _ (PErr (rewrap (S q0) e) p) U8 UM SD OK ltac:(discriminate) OKB SK0 E7) as S1.
     exists (rewrap (S q0) e). split; [|split; reflexivity].
-    apply (lift2 s cx _ _ _ _ S1); [discriminate|]. rewrite LT. lia.
+    apply (lift2 s cx _ _ _ _ S1); [discriminate|]. rewrite LT. ulia.
   Qed.
 
   (** ** extended items in the body of a delimited argument, then the stray token *)
@@ -509,7 +522,7 @@ Section Brk2.
     skipn pos s = unparse_items2 l1 ++ fws ++ stray_text c ++ g ->
     let gps := brk_state aps oc cc in
     let q := pos + length (unparse_items2 l1) in
-    R (1 + 8 * length (unparse_items2 l1)) (TCollect gps (brk_opts aps oc cc) st pos)
+    R (1 + U * length (unparse_items2 l1)) (TCollect gps (brk_opts aps oc cc) st pos)
     = PErr (fail_err gps (fst (absorb2 cx aps pos st l1)) q (stray_tk c) (stray_arg c)
                      (q + length fws + length (stray_text c)) fws [] (stray_what c))
            (q + length fws + length (stray_text c)).
@@ -535,7 +548,7 @@ Section Brk2.
     pose proof (trule_fail s cx false 0 gps (brk_opts aps oc cc) (fst (absorb2 cx aps pos st l1)) q
                   (stray_tk c) (stray_arg c) _ fws [] (stray_what c) eq_refl T SM
                   (stray_rejected gps c (brk_good cx aps oc cc SD) WF)) as HF.
-    refine (items_sim2 s cx (lsize2 l1) l1 (le_n _) [oc; cc] gps aps (brk_opts aps oc cc) st pos _ 1 _ F
+    refine (items_sim2 s cx U U8 UM (lsize2 l1) l1 (le_n _) [oc; cc] gps aps (brk_opts aps oc cc) st pos _ 1 _ F
               (opts_okF_brk cx aps oc cc SD D) _ OKL SK HF). discriminate.
   Qed.
 End Brk2.
